@@ -68,4 +68,4 @@ class BlockIdExt:
         return True
 
     def __hash__(self):
-        return self.root_hash
+        return hash(self.root_hash)
